@@ -200,9 +200,25 @@ func (f Field) Equals(other Field) bool {
 		return bytes.Equal(f.Interface.([]byte), other.Interface.([]byte))
 	case ArrayMarshalerType, ObjectMarshalerType, InlineMarshalerType, StringerType, ErrorType, ReflectType:
 		return reflect.DeepEqual(f.Interface, other.Interface)
+	case Complex128Type:
+		return sameComplex128(f.Interface.(complex128), other.Interface.(complex128))
+	case Complex64Type:
+		return sameComplex64(f.Interface.(complex64), other.Interface.(complex64))
 	default:
 		return f == other
 	}
+}
+
+// sameComplex128 reports whether a and b have the same bit patterns. Like
+// Float64 fields, which are compared by their bits, a complex field holding a
+// NaN is equal to itself.
+func sameComplex128(a, b complex128) bool {
+	return math.Float64bits(real(a)) == math.Float64bits(real(b)) && math.Float64bits(imag(a)) == math.Float64bits(imag(b))
+}
+
+// sameComplex64 is sameComplex128 for complex64 values.
+func sameComplex64(a, b complex64) bool {
+	return math.Float32bits(real(a)) == math.Float32bits(real(b)) && math.Float32bits(imag(a)) == math.Float32bits(imag(b))
 }
 
 func addFields(enc ObjectEncoder, fields []Field) {
